@@ -38,6 +38,15 @@ func (g *Gen) specLoad(env *Env, t types.Type, obj, off string) *Val {
 		if r := g.cellRanges(t, terms); r != "true" {
 			*env.side = append(*env.side, r)
 		}
+		// references stored in a heap denote objects allocated when that heap was current
+		cs := g.lay.Cells(t)
+		if len(cs) == len(terms) && env.nextobj != "" {
+			for i, c := range cs {
+				if c.Role == "obj" {
+					*env.side = append(*env.side, fmt.Sprintf("(< %s %s)", terms[i], env.nextobj))
+				}
+			}
+		}
 	}
 	return v
 }
@@ -714,7 +723,7 @@ func (g *Gen) footprint(env *Env, e *Expr) []region {
 		if t, o, off, ok := g.addrOf(env, e); ok {
 			// an lvalue of pointer or slice type named without deref: means the location itself
 			n := g.lay.Size(t)
-			return []region{{"*", o, off, addOff(off, n), n}}
+			return []region{{g.sortsOf(t), o, off, addOff(off, n), n}}
 		}
 	}
 	v := g.specVal(env, e)
@@ -725,7 +734,7 @@ func (g *Gen) footprint(env *Env, e *Expr) []region {
 	case "Ptr":
 		if pt, ok := v.T.Underlying().(*types.Pointer); ok {
 			n := g.lay.Size(pt.Elem())
-			return []region{{"*", v.S[0], v.S[1], addOff(v.S[1], n), n}}
+			return []region{{g.sortsOf(pt.Elem()), v.S[0], v.S[1], addOff(v.S[1], n), n}}
 		}
 	case "Slice":
 		sz := g.lay.Size(v.T.Underlying().(*types.Slice).Elem())
@@ -735,8 +744,36 @@ func (g *Gen) footprint(env *Env, e *Expr) []region {
 			fmt.Sscan(v.S[2], &n)
 			n *= sz
 		}
-		return []region{{"*", v.S[0], v.S[1], hi, n}}
+		return []region{{g.sortsOf(v.T.Underlying().(*types.Slice).Elem()), v.S[0], v.S[1], hi, n}}
 	}
 	g.specErr("modifies clause is not a location, pointer or slice", e)
 	return nil
+}
+
+// sortsOf: comma-separated cell sorts occurring in a type.
+func (g *Gen) sortsOf(t types.Type) string {
+	seen := map[string]bool{}
+	var out []string
+	for _, c := range g.lay.Cells(t) {
+		if !seen[c.Sort] {
+			seen[c.Sort] = true
+			out = append(out, c.Sort)
+		}
+	}
+	if len(out) == 0 {
+		return "none"
+	}
+	return strings.Join(out, ",")
+}
+
+func regionHasSort(r region, s string) bool {
+	if r.sort == "*" {
+		return true
+	}
+	for _, x := range strings.Split(r.sort, ",") {
+		if x == s {
+			return true
+		}
+	}
+	return false
 }
